@@ -205,6 +205,12 @@ pub fn c_payload(k: u64) -> u64 {
     10_000 + 10 * k
 }
 
+/// `Inner` has three fields instead of one in these versions. (Not tied to the parity of `k`:
+/// the position of `Inner` in the compiler's type pool already depends on that.)
+pub fn wide_inner(k: u64) -> bool {
+    k % 3 == 1
+}
+
 pub fn many_constants(k: u64) -> u64 {
     if k == 6 { 72 } else { 0 }
 }
@@ -236,17 +242,17 @@ fn script_base(m: u64, k: u64, broken: bool) -> String {
     // being compiled concurrently) changes every identifier-ordered map inside the compiler.
     let n = |role: u64| format!("Q{}", (role + k) % 7);
     let (c, d, s, l, lt, o, rc) = (n(0), n(1), n(2), n(3), n(4), n(5), n(6));
-    // `Inner`/`Outer`/`Plain` have the same names in every version, but `Inner` is wider in odd ones
-    let inner_extra = if k % 2 == 1 { ", b: u64, c: u64" } else { "" };
-    let inner_init = if k % 2 == 1 { ", b: 20, c: 30" } else { "" };
-    let inner_read = if k % 2 == 1 { " + o.i.b + o.i.c" } else { "" };
+    // `Inner`/`Outer`/`Plain` have the same names and field names in every version, but the
+    // fields of `Inner` are wider in some versions (16 or 24 bytes; its field names differ from
+    // `Plain`'s, or the wide one would be the same structural type as `Plain`)
+    let inner_ty = if wide_inner(k) { "u64" } else { "u8" };
     let decl_c = format!("const {c}: Tr = mk({c0});");
     let decl_d = format!("const {d}: Tr = {c};");
     let (first, second) = if k % 2 == 1 { (decl_d, decl_c) } else { (decl_c, decl_d) };
     format!(
         r#"record Rec{k} {{ n: u64, t: Tr, s: String }}
 record Plain {{ a: u64, b: u64, c: u64 }}
-record Inner {{ a: u64{inner_extra} }}
+record Inner {{ ia: u64, ib: {inner_ty}, ic: {inner_ty} }}
 record Outer {{ i: Inner, z: u64 }}
 const PC: Plain = Plain {{ a: {k}, b: 2, c: 3 }};
 {first}
@@ -288,8 +294,15 @@ fn f(x: u64) -> u64 {{
     acc = acc + ex_{k}() + many_{k}();
     let pl = PC;
     pl.a = pl.a + x;
-    let o = Outer {{ i: Inner {{ a: 5{inner_init} }}, z: x }};
-    acc = acc + pl.a + pl.c + o.z + o.i.a{inner_read};
+    // (three values of the record whose nested record differs between versions, all alive at once)
+    let o = Outer {{ i: Inner {{ ia: 5, ib: 20, ic: 30 }}, z: x }};
+    let o2 = Outer {{ i: Inner {{ ia: 7, ib: 21, ic: 31 }}, z: x + 1 }};
+    let o3 = Outer {{ i: Inner {{ ia: 9, ib: 22, ic: 32 }}, z: x + 2 }};
+    acc = acc + pl.a + pl.c + o.z + o.i.ia;
+    acc = acc + o2.z + o2.i.ia + o3.z + o3.i.ia;
+    if o.i.ib == 20 && o.i.ic == 30 {{ acc = acc + 50; }}
+    if o2.i.ib == 21 && o2.i.ic == 31 {{ acc = acc + 50; }}
+    if o3.i.ib == 22 && o3.i.ic == 32 {{ acc = acc + 50; }}
     acc + cap2() + cap3() + usez_{k}() - 1
 }}
 const ZC: Zt = mkz();
@@ -769,7 +782,7 @@ fn exec_inner(op: &LifeOp) -> bool {
                     };
                     let log = take_hostlog();
                     let many: u64 = (0..many_constants(k)).filter(|i| i % 10 != 9).map(|i| i + k).sum();
-                    let want = x.wrapping_mul(k) + 2 * c + (200 + rid) + (100 + rid) + 2 + 1 + (c + 2) + k + (c + 3) + (300 + rid) + 2 + extras.iter().sum::<u64>() + many + (600 + rid) + (700 + rid) + (k + x) + 3 + x + 5 + if k % 2 == 1 { 50 } else { 0 };
+                    let want = x.wrapping_mul(k) + 2 * c + (200 + rid) + (100 + rid) + 2 + 1 + (c + 2) + k + (c + 3) + (300 + rid) + 2 + extras.iter().sum::<u64>() + many + (600 + rid) + (700 + rid) + (k + x) + 3 + x + 5 + (x + 1 + 7) + (x + 2 + 9) + 150;
                     let mut want_log: Vec<(&str, u64)> = vec![("log", *x), ("val", c), ("val", c), ("val", 200 + rid), ("cap", 100 + rid), ("val", c + 2), ("val", c + 3), ("val", 300 + rid)];
                     want_log.extend(extras.iter().map(|p| if *p >= 6000 { ("cap", *p) } else { ("val", *p) }));
                     want_log.push(("cap", 600 + rid));
